@@ -35,7 +35,8 @@ PATTERNS = [
 ]
 TARGETS = ["notes.zo", "20240304.zo", "work_log.zo", "sub/new/deep.zo", "noext", "other.zo", "20241399.zo",
            "20240131.zo", "20240430.zo", "20240229.zo"]
-VARMAPS = [{}, {"name": "given"}, {"date": "20240102"}, {"date": "20241231"}]
+VARMAPS = [{}, {"name": "given"}, {"date": "20240102"}, {"date": "20241231"},
+           {"name": "R&D <a> 'q' \"dq\" {x}"}]  # a value is written as it is, whatever characters it has
 
 
 def template_text(i) -> str:
